@@ -285,6 +285,24 @@ func main() {
 		addChain(jcase{Kind: "chain", G: g2, Paints: []blk.Paint{blk.Hash(full, 2, 5, []uint64{1, 2, 3})},
 			Ops: []jop{{T: "merge", Target: 1, Merged: []uint64{2}}, {T: "down", Octs: octs}, {T: "replace", Target: 1, New: 4}}})
 	}
+	// Downres votes that TIE: 2x2x2 cells split 4/4 between two non-zero labels with the larger label at the
+	// cell's first voxel (x, y and z boundaries at odd coordinates), the smaller first, 4 labelled + 4 zero,
+	// 3/3/2 and 2/2/2/2 mixtures in ascending and descending order; octants 0, 3 and 7 given, the rest nil
+	{
+		dsc := ^uint64(0) // stride -1
+		octs := make([][]blk.Paint, 8)
+		octs[0] = []blk.Paint{blk.Fill(5), blk.Box([6]int{0, 0, 0, 1, 16, 16}, 9), blk.Box([6]int{3, 0, 0, 4, 16, 16}, 2),
+			blk.Box([6]int{4, 0, 0, 16, 1, 16}, 7), blk.Box([6]int{4, 2, 0, 16, 3, 16}, 0), blk.Box([6]int{8, 4, 1, 16, 16, 2}, 3), blk.Box([6]int{8, 4, 2, 16, 16, 3}, 8)}
+		octs[3] = []blk.Paint{blk.Cyc(full, 10, 1, 3), blk.Cyc([6]int{0, 8, 0, 16, 16, 16}, 12, dsc, 3), blk.Cyc([6]int{0, 0, 8, 16, 16, 16}, 20, 1, 2)}
+		octs[7] = []blk.Paint{blk.Cyc(full, 33, dsc, 2), blk.Cyc([6]int{0, 8, 0, 16, 16, 16}, 40, dsc, 4), blk.Cyc([6]int{0, 0, 8, 16, 16, 16}, 1, 1, 5)}
+		addChain(jcase{Kind: "chain", G: g2, Paints: []blk.Paint{blk.Hash(full, 2, 5, []uint64{1, 2, 3})},
+			Ops: []jop{{T: "down", Octs: octs}, {T: "replace", Target: 9, New: 4}}})
+		all := make([][]blk.Paint, 8)
+		for q := range all {
+			all[q] = []blk.Paint{blk.Cyc(full, uint64(50+q), dsc, uint64(2+q%3)), blk.Box([6]int{q, 0, 0, q + 1, 16, 16}, uint64(90-q))}
+		}
+		addChain(jcase{Kind: "chain", G: g2, Paints: []blk.Paint{blk.Fill(4)}, Ops: []jop{{T: "down", Octs: all}}})
+	}
 	// SplitSupervoxels: three affected supervoxels, the runs reach only one of them (and none of them)
 	addChain(jcase{Kind: "chain", G: g2, Paints: []blk.Paint{blk.Fill(1), blk.Box([6]int{0, 0, 8, 16, 16, 12}, 2), blk.Box([6]int{0, 0, 12, 16, 16, 16}, 3)},
 		Ops: []jop{{T: "splitsvs", RLEs: [][4]int32{{0, 0, 0, 16}, {2, 5, 1, 9}}, SV: [][3]uint64{{1, 11, 21}, {2, 12, 22}, {3, 13, 23}}},
